@@ -66,7 +66,7 @@ def _behaviour(rng):
 
 
 def generate(rng: random.Random, tier: str) -> dict:
-    n = rng.choice([1, 1, 2, 3, 4]) if tier == "quick" else rng.choice([1, 2, 3, 4, 6])
+    n = rng.choice([1, 1, 2, 3, 4, 4]) if tier == "quick" else rng.choice([1, 2, 3, 4, 6, 12])
     msgs = []
     for k in range(n):
         notif = rng.random() < 0.25
@@ -83,7 +83,8 @@ def generate(rng: random.Random, tier: str) -> dict:
         if not notif:
             m["id"] = rng.choice([f"r{k}", f"r{k}", k, f"{k}", f"id-ü{k}"])  # unique per message; k=0 gives the falsy id 0
         msgs.append(m)
-    return {"v": 1, "timeout": rng.choice([2.0, 0.5, 8.0]), "msgs": msgs, "init_session": rng.choice([None, None, "preset"])}
+    return {"v": 1, "timeout": rng.choice([2.0, 0.5, 8.0]), "msgs": msgs, "init_session": rng.choice([None, None, "preset"]),
+            "max_concurrent": rng.choice([10, 10, 1, 2, 3])}
 
 
 def _mk(status, ctype, body, notif=False, exc=None, sse=None, session=None, rid="r0", latency=1, **kw):
@@ -137,6 +138,10 @@ def systematic(tier: str):
     for seq in (["s1", None, "s2", None], [None, "s1", "s1", "s2"], ["s1", "s2", None, None]):
         out.append({"v": 1, "timeout": 2.0, "init_session": None,
                     "msgs": [_mk(200, "application/json", "response", session=s, rid=f"q{i}") for i, s in enumerate(seq)]})
+    for beh in [(503, "text/plain", "non_json"), (202, None, "empty"), (204, None, "empty"), (400, "application/json", "error_response"), (202, "text/plain", "truncated")]:
+        for notif in (False, True):
+            out.append({"v": 1, "timeout": 2.0, "init_session": None, "max_concurrent": 1,
+                        "msgs": [_mk(beh[0], beh[1], beh[2], notif=notif, rid="q0"), _mk(beh[0], beh[1], beh[2], rid="q1"), _mk(200, "application/json", "response", rid="q2")]})
     out.append({"v": 1, "timeout": 2.0, "init_session": "preset",
                 "msgs": [_mk(500, "text/plain", "non_json", session="bad", rid="q0"), _mk(200, "application/json", "response", rid="q1")]})
     return out
@@ -157,6 +162,8 @@ def simplify(scn):
                 c = copy.deepcopy(scn); c["msgs"][i]["beh"]["sse"][key] = val; yield c
     if scn["init_session"]:
         c = copy.deepcopy(scn); c["init_session"] = None; yield c
+    if scn.get("max_concurrent", 10) != 10:
+        c = copy.deepcopy(scn); c["max_concurrent"] = 10; yield c
 
 
 # ---- body construction --------------------------------------------------------------------
@@ -403,7 +410,7 @@ def execute(scn: dict) -> dict:
         st["transport"] = transport
         Client = make_client_class(lambda: transport)
         with patched((httpx, "AsyncClient", Client)):
-            params = StreamableHTTPParameters(url=URL, timeout=timeout, session_id=scn["init_session"])
+            params = StreamableHTTPParameters(url=URL, timeout=timeout, session_id=scn["init_session"], max_concurrent_requests=scn.get("max_concurrent", 10))
             async with httpmod.http_client(params) as (read_stream, write_stream):
                 async def drain():
                     async for m in read_stream:
